@@ -43,7 +43,7 @@ def operand(s):
 KNOWN = {"add", "sub", "imul", "idiv", "cqo", "jmp", "lea", "mov", "cmp", "je", "jne", "jl", "jle",
          "jg", "jge", "push", "pop", "call", "ret",
          # forms the backend does not print today but a different instruction selection may: modelled in spec/X86.tla as well
-         "test", "xor", "and", "or", "inc", "dec", "neg", "not", "shl", "sal", "sar", "shr", "nop", "jz", "jnz", "js", "jns", "xchg"}
+         "test", "xor", "and", "or", "inc", "dec", "neg", "not", "shl", "sal", "sar", "shr", "nop", "jz", "jnz", "js", "jns", "xchg", "leave"}
 
 def tokenize(text):
     """-> (instructions, directives) ; instructions: list of {"op", "a"} / label / mark records"""
